@@ -6,6 +6,7 @@ import (
 
 	"github.com/superfly/litefs/verifharness/core"
 	"github.com/superfly/litefs/verifharness/dbreplay"
+	"github.com/superfly/litefs/verifharness/faults"
 	"github.com/superfly/litefs/verifharness/sim"
 	"github.com/superfly/litefs/verifharness/t3"
 )
@@ -20,7 +21,11 @@ func main() {
 	if t3.MaybeReplay(rep, args, map[string]bool{"C02": true}) {
 		rep.Finish()
 	}
-	dbreplay.Post = func() { t3.Stage(rep, args, map[string]bool{"C02": true}) }
+	dbreplay.Post = func() {
+		// failure paths (spec/Faults.tla): every call of the operation through the OS interface fails once
+		faults.Run(rep, args, faults.Select{Ops: []string{"rb_commit"}, Monitors: []string{"image", "effect"}})
+		t3.Stage(rep, args, map[string]bool{"C02": true})
+	}
 	dbreplay.Main(rep, args, "C02", []dbreplay.Stage{
 		{Name: "rb-3pg-3ops-exhaustive", Cfg: core.Pick(args, "MC_DBFile_rb.cfg", "MC_DBFile_rb_edge.cfg"), Timeout: 10 * time.Minute, MaxKeep: core.Pick(args, 600, 0)},
 		{Name: "rb-beyond-3pg-3ops-exhaustive", Cfg: "MC_DBFile_rb_beyond.cfg", Timeout: 10 * time.Minute, MaxKeep: core.Pick(args, 500, 0)},
